@@ -199,7 +199,8 @@ def random_state(rng, component, astat):
                 if e.count >= component.max_count:
                     e.time_left = 0.0
         elif isinstance(e, E.Stack) and name in ("stack", "punishing_stack"):
-            e.stack = rng.randint(0, e.maximum_stack)
+            # boundary-biased: the guards on stacks compare with 0, a threshold (FlameSwipVI.explode: 3) and the maximum
+            e.stack = rng.choice([0, 1, max(0, e.maximum_stack - 1), e.maximum_stack, e.maximum_stack, rng.randint(0, e.maximum_stack)])
         elif type(e).__name__ == "PoisonNovaEntity":
             e.time_left = rng.choice([0.0, -250.0, 4000.0, H.rtime(rng, True, 120000), e.maximum_time_left, e.maximum_time_left + 30.0])
         elif type(e).__name__ == "CurrentField":
